@@ -57,6 +57,7 @@ NSLOTS = 8
 
 CDEF = """
 struct s { int a; long b; char c[8]; };
+union u { struct { int a; long b; char c[8]; }; double pad[4]; };
 void c21_reset(void);
 void *c21_alloc(size_t n);
 void c21_free(void *p);
@@ -360,7 +361,8 @@ class History(object):
         v = 1 + v * 37
         if ty in (0, 2):
             new = ffi.new if ty == 0 else self.allocator_default()
-            p = new('struct s *')
+            # a union is owned through its pointer exactly like a struct
+            p = new('union u *' if v % 3 == 0 else 'struct s *')
             m = self.node('mem', p[0])
             n = self.node('ptr', p)
             n.out.append(['structobj', m.nid])
@@ -513,7 +515,7 @@ class History(object):
             self.calls[n.callkey] = 0
         self.expect[n.callkey] = 0
         self.astate['pending'] = n.callkey
-        cdecl = ['struct s *', 'int[3]', 'int *', 'char[]'][ty]
+        cdecl = ['union u *' if n.nid % 3 == 0 else 'struct s *', 'int[3]', 'int *', 'char[]'][ty]
         p = a(cdecl, 5) if ty == 3 else a(cdecl)
         self.astate['pending'] = None
         if ty == 0:
